@@ -1,4 +1,5 @@
 import Adlt.Net.Live
+import Adlt.Net.Loss
 /-! # C13 — bounded channels and slow consumers never lose or reorder messages
 
 Model: `Net` — a pipeline of deterministic stream transducers (`Stage`: outputs caused by one more input, outputs at
@@ -36,6 +37,32 @@ theorem C13_no_deadlock {M : Type} (input : List M) (stages : List (Stage M)) (c
 theorem C13_terminates {M : Type} (input : List M) (stages : List (Stage M)) (k : Nat) (s' : Nat) (nodes' : List (Node M)) (got' : List M)
     (hs : StepsN k input true 0 (initNodes stages) [] s' nodes' got') :
     k ≤ work input 0 (initNodes stages) [] := Net.C13_terminates input stages k s' nodes' got' hs
+
+/-- consumer loss, no blocking: the network in which the consumer may leave at any moment and a sender whose receiver is gone
+    is stopped by its next send (`StepL`): under every capacity-respecting schedule, in every reachable state either an
+    action is enabled or every stage thread has terminated - ended with everything sent, or stopped by the failed send -
+    and the source has stopped or sent everything. No stage blocks forever. -/
+theorem C13_loss_never_blocks {M : Type} (input : List M) (stages : List (Stage M)) (caps : List Nat)
+    (hl : caps.length = stages.length + 1) (hc : ∀ c ∈ caps, 1 ≤ c)
+    (k s' : Nat) (ug' : Bool) (nodes' : List (Node M × Bool)) (got' : List M) (cg' : Bool)
+    (hs : StepsL k caps input true 0 false (initL stages) [] false s' ug' nodes' got' cg') :
+    (∃ s'' ug'' nodes'' got'' cg'', StepL caps input true s' ug' nodes' got' cg' s'' ug'' nodes'' got'' cg'') ∨
+    (AllDone nodes' ∧ (ug' = true ∨ s' = input.length)) :=
+  Net.C13_loss_never_blocks input stages caps hl hc k s' ug' nodes' got' cg' hs
+
+/-- consumer loss, termination: every schedule of that network is finite, bounded by the initial work plus the number of
+    elements that can leave -/
+theorem C13_loss_terminates {M : Type} (input : List M) (stages : List (Stage M)) (caps : List Nat)
+    (k s' : Nat) (ug' : Bool) (nodes' : List (Node M × Bool)) (got' : List M) (cg' : Bool)
+    (hs : StepsL k caps input true 0 false (initL stages) [] false s' ug' nodes' got' cg') :
+    k ≤ work input 0 (initNodes stages) [] + (stages.length + 2) :=
+  Net.C13_loss_terminates input stages caps k s' ug' nodes' got' cg' hs
+
+/-- non-vacuity: the consumer leaves at once, the source pushes one item into the (still living) stage -/
+example : ∃ s' ug' nodes' got' cg', StepsL 2 [1, 1] [1, 2] true 0 false
+    (initL [({ inc := fun _ x => [x], flush := fun _ => [] } : Stage Nat)]) [] false s' ug' nodes' got' cg' :=
+  ⟨_, _, _, _, _, .cons (.deeper 1 [1] [1, 2] true 0 false _ false [] [] false _ _ _ _ _ (.consLeave [1] _ _ _ false []))
+    (.cons (.push 1 [1] [1, 2] true 0 _ [] true (by decide) rfl (by decide)) (.refl _ _ _ _ _ _ _ _))⟩
 
 /-- non-vacuity: the identity stage on two inputs behind channels of capacity 1: the initial state has an enabled action -/
 example : ∃ s' nodes' got', StepC [1, 1] [1, 2] true 0 (initNodes [({ inc := fun _ x => [x], flush := fun _ => [] } : Stage Nat)]) [] s' nodes' got' :=
